@@ -15,7 +15,8 @@ RULE = ('bounded-exhaustive: base lists of <= 3 lines over a 15-password pool (l
 ASSUMPTIONS = ['a password of the form $HEX[...] cannot be written plainly in the trainer input language; such base passwords are only written in $HEX form',
                'rulesets are compared within one encoding (the files are written in the training encoding)']
 NSHARDS = 16
-POOL = ['password', 'Pass word', ' lead', 'trail ', '  two  ', 'пароль', 'café', '$HEX[41', 'x$HEX[41]', '$HEX[zz]', '12 abc', '7', 'a]', '$HEX[4142]', ' $HEX[41]', '$HEX[41]x', '$HEX[4142] ']
+POOL = ['password', 'Pass word', ' lead', 'trail ', '  two  ', 'пароль', 'café', '$HEX[41', 'x$HEX[41]', '$HEX[zz]', '12 abc', '7', 'a]', '$HEX[4142]', ' $HEX[41]', '$HEX[41]x', '$HEX[4142] ',
+        '   ']      # a password that is nothing but blanks is a password (only the empty line is not)
 JUNK = [('blank', b''), ('tab', b'ab\tcd'), ('nel', 'ab\u0085cd'), ('ls', 'ab\u2028cd'), ('ps', 'ab\u2029cd'),
         ('undecodable', {'utf-8': b'ab\xff\xfecd', 'cp1251': b'ab\x98cd'}), ('broken_hex', b'$HEX[4g]'), ('odd_hex', b'$HEX[414]'),
         # well-formed hex whose bytes are not text in the file's encoding: cut inside a multi-byte character, a lone continuation byte, an invalid byte
